@@ -16,6 +16,7 @@ import (
 	"net/url"
 	"strconv"
 	"strings"
+	"sync"
 	"testing"
 	"time"
 
@@ -145,6 +146,11 @@ func vfIssued(rr interface{}, code int, body []byte, submitted interface{}) stri
 //	    -> peer=<class> refresh=<status cn nets samekey ext> certgen=<status cn - samekey ->
 //	get <hex "cidr,cidr,…">   POST /v1/getRoleRequestingCert as an automation admin
 //	    -> status=<code> cn=<hex> nets=<…> ext=<hexDER>
+//	cget <rounds> <hex "cidr,…">@<hexaddr> <hex "cidr,…">@<hexaddr> …
+//	    one creation request per worker, all workers released AT THE SAME TIME (<rounds> times); every certificate that comes
+//	    back is read (library verify from <addr>, netblocks) and at once presented from <addr> (with its issuer) to
+//	    /v1/refreshRoleRequestingCert, while the other workers are still creating / refreshing
+//	    -> workers=<n> ;; <distinct results of worker 0, " || "-separated> ;; …   result: get=<…> verify=<t|f|err> refresh=<…>
 func TestVerifC11(t *testing.T) {
 	io := vfOpen(t)
 	defer io.close()
@@ -536,6 +542,127 @@ func TestVerifC11(t *testing.T) {
 				}
 			}
 			io.emit("get=%s%s", strings.ReplaceAll(vfIssued(rr, rr.Code, rr.Body.Bytes(), userPub), " ", "|"), use)
+		case len(f) >= 4 && f[0] == "cget":
+			rounds, err := strconv.Atoi(f[1])
+			if err != nil || rounds < 1 || rounds > 10000 {
+				io.emit("bad-op")
+				continue
+			}
+			type worker struct {
+				cidrs  []string
+				addr   string
+				cookie *http.Cookie
+				seen   []string
+			}
+			var ws []*worker
+			bad := false
+			for _, spec := range f[2:] {
+				parts := strings.Split(spec, "@")
+				if len(parts) != 2 {
+					bad = true
+					break
+				}
+				cidrs, ok1 := vfUnhex(parts[0])
+				addr, ok2 := vfUnhex(parts[1])
+				if !ok1 || !ok2 {
+					bad = true
+					break
+				}
+				ws = append(ws, &worker{cidrs: strings.Split(cidrs, ","), addr: addr,
+					cookie: vfAuthCookie(t, state, "admin1", AuthTypePassword)})
+			}
+			if bad {
+				io.emit("bad-op")
+				continue
+			}
+			if !onCfg {
+				state.Config.Base.AutomationUsers = []string{"role1"}
+				state.Config.DenyTrustData.KeyDenyFPsshSha256 = nil
+			}
+			once := func(w *worker) string {
+				form := url.Values{}
+				form.Add("identity", "role1")
+				for _, c := range w.cidrs {
+					form.Add("requestor_netblock", c)
+				}
+				form.Add("target_netblock", "192.168.0.174/32")
+				form.Add("pubkey", b64public)
+				req, _ := http.NewRequest("POST", getRoleRequestingPath, strings.NewReader(form.Encode()))
+				req.Header.Add("Content-Length", strconv.Itoa(len(form.Encode())))
+				req.Header.Add("Content-Type", "application/x-www-form-urlencoded")
+				req.AddCookie(w.cookie)
+				rr, p := vfServe(state.roleRequetingCertGenHandler, req)
+				if p != nil {
+					return "get=PANIC verify=- refresh=-"
+				}
+				got := strings.ReplaceAll(vfIssued(rr, rr.Code, rr.Body.Bytes(), userPub), " ", "|")
+				if rr.Code != 200 {
+					return "get=" + got + " verify=- refresh=-"
+				}
+				block, _ := pem.Decode(rr.Body.Bytes())
+				if block == nil {
+					return "get=" + got + " verify=- refresh=-"
+				}
+				minted, err := x509.ParseCertificate(block.Bytes)
+				if err != nil {
+					return "get=" + got + " verify=- refresh=-"
+				}
+				verify := func() (res string) {
+					defer func() {
+						if recover() != nil {
+							res = "PANIC"
+						}
+					}()
+					ok, err := certgen.VerifyIPRestrictedX509CertIP(minted, w.addr)
+					if ok {
+						return "t"
+					}
+					if err != nil {
+						return "err"
+					}
+					return "f"
+				}()
+				cs := &tls.ConnectionState{VerifiedChains: [][]*x509.Certificate{{minted, caCert}},
+					PeerCertificates: []*x509.Certificate{minted}}
+				form2 := url.Values{}
+				form2.Add("pubkey", b64public)
+				req2, _ := http.NewRequest("POST", refreshRoleRequestingCertPath, strings.NewReader(form2.Encode()))
+				req2.Header.Add("Content-Length", strconv.Itoa(len(form2.Encode())))
+				req2.Header.Add("Content-Type", "application/x-www-form-urlencoded")
+				req2.RemoteAddr = w.addr
+				req2.TLS = cs
+				refreshed := "PANIC|-|-|-|-"
+				if rr2, p2 := vfServe(state.refreshRoleRequestingCertGenHandler, req2); p2 == nil {
+					refreshed = strings.ReplaceAll(vfIssued(rr2, rr2.Code, rr2.Body.Bytes(), userPub), " ", "|")
+				}
+				return "get=" + got + " verify=" + verify + " refresh=" + refreshed
+			}
+			for r := 0; r < rounds; r++ {
+				start := make(chan struct{})
+				var wg sync.WaitGroup
+				for _, w := range ws {
+					wg.Add(1)
+					go func(w *worker) {
+						defer wg.Done()
+						<-start
+						res := once(w)
+						known := false
+						for _, s := range w.seen {
+							known = known || s == res
+						}
+						if !known && len(w.seen) < 4 {
+							w.seen = append(w.seen, res)
+						}
+					}(w)
+				}
+				close(start)
+				wg.Wait()
+			}
+			out := []string{fmt.Sprintf("workers=%d", len(ws))}
+			for _, w := range ws {
+				out = append(out, strings.Join(w.seen, " || "))
+			}
+			io.emit("%s", strings.Join(out, " ;; "))
 		default:
 			io.emit("bad-op")
 		}
